@@ -851,7 +851,9 @@ def run(tier, seed, build):
                 "single constructs under strict; fatal constructs), judged in-process and re-judged through the CLI; "
                 "plus one fixed and one generated program whose target is spelled in eight ways (short / deep relative, through '..', "
                 "absolute inside the root / below $HOME / elsewhere) x -o ir|cacheable|results|stats|silent|cache file x the settings "
-                "(all 16 for the documents of the fixed program); "
+                "(all 16 for the documents of the fixed program); plus the repeat stage: projects in which one diagnostic (same message, file, "
+                "line) is emitted more than once in a run (star-imported module compiled twice, target imported back) x the four -w levels x "
+                "-o stats|results x gates around the observed total, judged on the CLI output; "
                 "non-trivial = distinct (program, strict/threshold) whose dry run emits >= 1 diagnostic")
     rng = random.Random(seed)
     n = 8 if tier == "quick" else 150
@@ -1014,7 +1016,11 @@ def _run(res, tier, seed, rng, progs, shaped):
         "cacheable document are compared across settings but not modelled",
         "a construct whose unresolved relative import is an uncaught exception (imported module, target outside the search "
         "path) is left to C07; site programs avoid it",
+        "repeat stage (props/c16repeat.py): judged by the property oracle on the CLI's real output only (no model prediction); a run that "
+        "ends in a traceback is C07's subject and is not judged",
     ]
+    from props import c16repeat
+    c16repeat.stage(res, random.Random(seed + 1605), tier)
     return res
 
 
@@ -1022,6 +1028,18 @@ def replay(path):
     j = json.load(open(path))
     print(json.dumps({k: j[k] for k in j if k not in ("impl", "spec")}, indent=1)[:6000])
     case = j.get("case") or {}
+    if case.get("stage") == "repeat":
+        from props import c16repeat
+        with dc.scratch_dir("rattr-c16-replay-") as base:
+            cwd, home = base / "proj", base / "home"
+            cwd.mkdir(); home.mkdir()
+            for rel, text in case["files"].items():
+                (cwd / rel).write_text(text)
+            fam = case["argv_family"]
+            for w in case["levels"]:
+                o = c16repeat.run(cwd, home, ["-w", w] + fam[2:])
+                print(f"-w {w}: exit {o['exit']}\n{o['stdout'][-500:]}\n{len(o['lines'])} diagnostic lines")
+        return 0
     prog, a = case.get("program"), case.get("analysis_cfg")
     if not prog or not a:
         return 0
